@@ -176,8 +176,9 @@ type job struct {
 	rep *sym.FuncReport
 }
 
-// genModule generates the obligations of one module.
-func genModule(pkgs []*packages.Package, m *Module, byName map[string]*Module, opt Options, rr *RunResult) []*job {
+// genModule generates the obligations of one module. For a supporting (used) module `only` names the functions whose
+// contracts the check actually rests on (nil: the module's own check - everything); applied collects the contracts applied.
+func genModule(pkgs []*packages.Package, m *Module, byName map[string]*Module, opt Options, rr *RunResult, only map[string]bool, done map[string]bool, applied map[string]bool) []*job {
 	var jobs []*job
 	target := pkgByRel(pkgs, m.PkgRel)
 	if target == nil {
@@ -243,7 +244,13 @@ func genModule(pkgs []*packages.Package, m *Module, byName map[string]*Module, o
 			}
 		}
 	}
-	if len(m.Spec.Witness) > 0 {
+	support := only != nil
+	defer func() {
+		for k := range e.Applied {
+			applied[k] = true
+		}
+	}()
+	if len(m.Spec.Witness) > 0 && !support {
 		reps, errs := sweepModule(pkgs, target, m, opt)
 		for _, r := range reps {
 			mk(r)
@@ -255,6 +262,11 @@ func genModule(pkgs []*packages.Package, m *Module, byName map[string]*Module, o
 		if opt.OnlyFunc != "" && key != opt.OnlyFunc {
 			continue
 		}
+		full := target.Types.Name() + "." + key
+		if support && (!only[full] || done[m.Name+":"+full]) {
+			continue // a supporting module: only the contracts this check rests on are verified here
+		}
+		done[m.Name+":"+full] = true
 		rep, err := e.VerifyFunc(target.PkgPath, key, true)
 		if err != nil {
 			rr.GenErrors = append(rr.GenErrors, fmt.Sprintf("%s: %v", m.Name, err))
@@ -288,7 +300,7 @@ func genModule(pkgs []*packages.Package, m *Module, byName map[string]*Module, o
 		}
 		mk(rep)
 	}
-	if len(m.Spec.Invs) > 0 {
+	if len(m.Spec.Invs) > 0 && !support {
 		// induction over call histories: every exported method of the package preserves the module's invariants,
 		// also those that have no contract in this module
 		se := sym.New(pkgs)
@@ -313,6 +325,9 @@ func genModule(pkgs []*packages.Package, m *Module, byName map[string]*Module, o
 				continue
 			}
 			rep, err := se.InvMethod(target.PkgPath, fn, e.Specs[target.PkgPath])
+			for k := range se.Applied {
+				applied[k] = true
+			}
 			if err != nil {
 				rr.GenErrors = append(rr.GenErrors, fmt.Sprintf("%s: invariants over %s: %v", m.Name, fn.Name(), err))
 				continue
@@ -321,7 +336,8 @@ func genModule(pkgs []*packages.Package, m *Module, byName map[string]*Module, o
 			mk(rep)
 		}
 	}
-	if opt.OnlyFunc == "" {
+	if opt.OnlyFunc == "" && !done[m.Name+":lemmas"] {
+		done[m.Name+":lemmas"] = true
 		if len(m.Spec.Lemmas) > 0 {
 			rep, err := verifyLemmas(e, target.PkgPath)
 			if err != nil {
@@ -442,13 +458,32 @@ func Run(opt Options, own, used []*Module, all []*Module) *RunResult {
 	rr.LoadSecs = time.Since(t0).Seconds()
 	var jobs []*job
 	support := map[string]bool{}
-	for _, m := range append(append([]*Module{}, own...), used...) {
+	applied := map[string]bool{}
+	done := map[string]bool{}
+	for _, m := range own {
 		if opt.OnlyModule != "" && m.Name != opt.OnlyModule && m.Spec.Module != opt.OnlyModule {
 			continue
 		}
 		rr.Modules = append(rr.Modules, m.Name)
-		js := genModule(pkgs, m, byName, opt, rr)
-		jobs = append(jobs, js...)
+		jobs = append(jobs, genModule(pkgs, m, byName, opt, rr, nil, done, applied)...)
+	}
+	// supporting modules: verify the contracts the check rests on (transitively), not everything they contain
+	listed := map[string]bool{}
+	for round := 0; round < 12; round++ {
+		before := len(done)
+		for _, m := range used {
+			if opt.OnlyModule != "" && m.Name != opt.OnlyModule && m.Spec.Module != opt.OnlyModule {
+				continue
+			}
+			if !listed[m.Name] {
+				listed[m.Name] = true
+				rr.Modules = append(rr.Modules, m.Name)
+			}
+			jobs = append(jobs, genModule(pkgs, m, byName, opt, rr, applied, done, applied)...)
+		}
+		if len(done) == before {
+			break
+		}
 	}
 	for _, m := range used {
 		support[m.Name] = true
